@@ -7,7 +7,7 @@ git reset -q --hard HEAD; git clean -fdq
 git apply "$patch" || { echo "PATCH-NO-APPLY $patch"; exit 2; }
 v=$(mktemp -d /tmp/apv.XXXX); cp /verif/known_findings.json /verif/properties.jsonl $v/
 for i in 01 02 03 04 05 06 07 08 09 10 11 12 13 14 15 16 17 18 19 20; do
-  o=$(/verif/bin/storagecheck -prop C$i -tier quick -repo $wt -verif $v 2>&1); rc=$?
+  o=$(${CHK:-/verif/bin/storagecheck} -prop C$i -tier quick -repo $wt -verif $v 2>&1); rc=$?
   [ $rc -ne 0 ] && echo "$patch C$i: $(echo "$o" | grep -E '^(VIOLATED|UNDECIDED)' | sed -E 's/^(VIOLATED|UNDECIDED) rule=([^ ]+) construct=(.{0,80}).*/\1:\2[\3]/' | sort -u | head -4 | tr '\n' ' ')"
 done
 git reset -q --hard HEAD; git clean -fdq; rm -rf $v
